@@ -440,7 +440,7 @@ func c01validate(res *vlib.Result, rec *krecord, recipe string, faults bool) {
 			}
 			identifiable := b.KeepFull || b.Jq == ".data" || b.Jq == "{g: .data.gen}" || b.Jq == ".data.gen" || b.Jq == "[.data.gen, .metadata.name]"
 			if b.Group != "" {
-				c01group(res, rec, kh, b, lastGroup, recipe)
+				c01group(res, rec, kh, b, lastGroup, recipe, faults)
 				continue
 			}
 			if !identifiable {
@@ -674,11 +674,16 @@ func c01firstMissing(got, want []c01ev, h []vlib.ObjState) c01ev {
 
 // c01group: the last Group execution must show, for the binding, the final matching set when the last
 // relevant change of the ground truth fired an event for this binding.
-func c01group(res *vlib.Result, rec *krecord, kh khook, b *kbind, lastGroup *kexec, recipe string) {
+func c01group(res *vlib.Result, rec *krecord, kh khook, b *kbind, lastGroup *kexec, recipe string, faults bool) {
 	if lastGroup == nil {
 		if b.OnSync {
 			res.Violate("group/synchronization-missing", "binding %s/%s (group %s) never produced a successful Group execution\n%s", kh.Rel, b.Name, b.Group, rec.describe())
 		}
+		return
+	}
+	if faults {
+		// watch closes, relists and outages legally coalesce changes (an object created and deleted during
+		// an outage is never seen): there may be no event for the last change; the final state is C02's
 		return
 	}
 	// is the very last state change among objects that ever matched b of a listed type?
